@@ -89,20 +89,20 @@ PROPS["C12"] = {
 }
 PROPS["C13"] = {
     "id": "C13", "cmd": "serde_fuzz", "level": "exploration",
-    "rule": "documents = hand-written synthetic documents, 16 kinds of structural mutation (drop, duplicate, swap, retype to null/string/negative/2^32/float/array/object/bool, nest, retarget to an undeclared key, arity +1/-1, increment) at every position of every valid seed document (all multigraphs on <=2 nodes/<=2 edges plus richer seeds), double mutations on the small seeds, truncation at every byte, seeded random byte/token mutations; JSON and CBOR; four containers. Oracle: no panic, no hang (CPU-time watchdog); Ok(graph) must pass the invariant walk, contain only nodes and edge copies that a lenient parse of the same bytes declares, and must not have been accepted if an edge names an undeclared key. distinct = distinct documents per flavour.",
+    "rule": "documents = hand-written synthetic documents, 19 kinds of structural mutation (drop, duplicate, swap, move/copy to end, move to front, retype to null/string/negative/2^32/float/array/object/bool, nest, retarget to an undeclared key, arity +1/-1, increment) at every position of every valid seed document (all multigraphs on <=2 nodes/<=2 edges plus richer seeds), double mutations on the small seeds, truncation at every byte, inflation of every CBOR length header to huge counts, seeded random byte/token mutations; JSON and CBOR; four containers. Oracle: no panic, no hang (CPU-time watchdog); Ok(graph) must pass the invariant walk, contain only nodes and edge copies that a lenient parse of the same bytes declares, and must not have been accepted if an edge names an undeclared key. distinct = distinct documents per flavour.",
     "shards": {"quick": 8, "thorough": 16},
     "args": {"quick": ["--random", "3000000"], "thorough": ["--random", "60000000"]},
     "exhaustive": {"quick": False, "thorough": False},
-    "require": {"any": ["enumerations_completed", "documents_accepted", "documents_rejected", "accepted_with_edges", "structural_mutations", "truncations", "random_mutations", "synthetic_documents"]},
+    "require": {"any": ["enumerations_completed", "documents_accepted", "documents_rejected", "accepted_with_edges", "structural_mutations", "truncations", "random_mutations", "synthetic_documents", "cbor_length_inflations", "double_mutations"]},
     "assumptions": ["'declared by the document' is computed by serde_json::Value / serde_cbor::Value parses of the same bytes"],
     "timeout": {"quick": 300, "thorough": 2400},
 }
 
 PROPS["C18"] = {
     "id": "C18", "cmd": "container", "level": "exploration",
-    "rule": "histories over the alphabet {insert of either of two distinct node objects per key, remove, connect / disconnect / isolate on members and non-members, connect / isolate through handles handed out by get / index / to_vec / iter}: every sequence of the stated depth over the stated key count is enumerated, plus seeded random histories of 300 calls on 2..6 keys; after every call len/is_empty/contains/get/index/to_vec/iter/roots/leaves/orphans are compared with a key->node-object map model (identity by payload instance), changes made through handed-out nodes must be visible through the original handles, and the DOT exports of the final graph are parsed line by line against the members, the edges obtained by iterating them and the attributes returned by 27 callback combinations. distinct = distinct (flavour, history).",
+    "rule": "histories over the alphabet {insert of either of two distinct node objects per key, remove, connect / disconnect / isolate on members and non-members, connect / isolate through handles handed out by get / index / to_vec / iter}: every sequence of the stated depth over the stated key count is enumerated, plus seeded random histories of 300 calls on 2..6 keys and of 400 calls on 7..24 keys (larger containers, remove / re-insert of another object under the same key, views after edge removals); after every call len/is_empty/contains/get/index/to_vec/iter/roots/leaves/orphans are compared with a key->node-object map model (identity by payload instance), changes made through handed-out nodes must be visible through the original handles, and the DOT exports of the final graph are parsed line by line against the members, the edges obtained by iterating them and the attributes returned by 27 callback combinations. distinct = distinct (flavour, history).",
     "shards": {"quick": 8, "thorough": 16},
-    "args": {"quick": ["--keys", "2", "--depth", "3", "--random", "20000"], "thorough": ["--keys", "2", "--depth", "4", "--random", "400000"]},
+    "args": {"quick": ["--keys", "2", "--depth", "3", "--random", "30000"], "thorough": ["--keys", "2", "--depth", "4", "--random", "600000"]},
     "exhaustive": {"quick": True, "thorough": True},
     "require": {"any": ["enumerations_completed", "insert_of_other_object_on_present_key", "remove_of_absent_key", "edge_ops_touching_non_members", "changes_through_handed_out_nodes", "dot_exports_with_edges", "dot_attr_exports", "random_histories"]},
     "assumptions": ["connected node objects have distinct keys (premise of the node properties): only one object per key ever takes part in edge operations", "Display of u32 keys contains no whitespace or '->', so DOT text can be parsed by line"],
@@ -111,15 +111,15 @@ PROPS["C18"] = {
 
 PROPS["C19"] = {
     "id": "C19", "cmd": "leak", "level": "exploration",
-    "rule": "scenarios = (multigraph on <=N nodes / <=E connects incl. self-loops, cycles, parallel edges) x 12 sets of extra handles (container, yielded edge, bfs path, dfs cycle, preorder nodes, postorder edges, clone, found node) and optional neighbour lookups / refused try_connects from both ends before the drops x drop orders (all permutations up to 4 handles, 14 sampled beyond: originals first, last, shuffled); random scenarios on 2..8 nodes add disconnect/isolate before the drops. After every single drop: no payload of a node that a surviving handle mentions has been released, every surviving handle still reads key/value of its nodes (own payload instance); after the last drop: live count 0 and every payload instance released exactly once. The same sub-command is re-run under valgrind memcheck (leak check, definite+indirect) and under Miri (leak report at exit, UB) as independent oracles. distinct = distinct (flavour, graph, handle set, drop order).",
+    "rule": "scenarios = (multigraph on <=N nodes / <=E connects incl. self-loops, cycles, parallel edges) x 14 sets of extra handles (container, yielded edge, bfs path, dfs cycle, preorder nodes, postorder edges, clone, found node) and optional neighbour lookups / refused try_connects from both ends and a history of searches of every kind (found and absent targets, transposed, cycles, orderings) before the drops x drop orders (all permutations up to 4 handles, 14 sampled beyond: originals first, last, shuffled); random scenarios on 2..8 nodes add disconnect/isolate before the drops. After every single drop: no payload of a node that a surviving handle mentions has been released, every surviving handle still reads key/value of its nodes (own payload instance); after the last drop: live count 0 and every payload instance released exactly once. The same sub-command is re-run under valgrind memcheck (leak check, definite+indirect) and under Miri (leak report at exit, UB) as independent oracles. distinct = distinct (flavour, graph, handle set, drop order).",
     "shards": {"quick": 8, "thorough": 16},
     "args": {"quick": ["--max-n", "3", "--max-e", "2", "--random", "40000"], "thorough": ["--max-n", "3", "--max-e", "3", "--random", "1000000"]},
     "valgrind": {"quick": {"procs": 8, "args": ["--max-n", "2", "--max-e", "2", "--random", "400"], "timeout": 600},
                  "thorough": {"procs": 16, "args": ["--max-n", "3", "--max-e", "2", "--random", "4000"], "timeout": 1800}},
-    "miri": {"quick": {"procs": 16, "nshards": 640, "args": ["--max-n", "2", "--max-e", "1", "--random", "0"], "timeout": 900},
-             "thorough": {"procs": 16, "nshards": 64, "args": ["--max-n", "2", "--max-e", "1", "--random", "64"], "timeout": 3000}},
+    "miri": {"quick": {"procs": 16, "nshards": 1600, "args": ["--max-n", "2", "--max-e", "1", "--random", "0"], "timeout": 900},
+             "thorough": {"procs": 16, "nshards": 96, "args": ["--max-n", "2", "--max-e", "1", "--random", "64"], "timeout": 3000}},
     "exhaustive": {"quick": True, "thorough": True},
-    "require": {"any": ["enumerations_completed", "scenarios_with_selfloop", "handle.container", "handle.edge", "handle.path", "handle.search_nodes result", "handle.search_edges result", "reads_through_surviving_handles", "random_scenarios", "valgrind.scenarios", "miri.scenarios", "scenarios_with_lookups_before_drop"]},
+    "require": {"any": ["enumerations_completed", "scenarios_with_selfloop", "handle.container", "handle.edge", "handle.path", "handle.search_nodes result", "handle.search_edges result", "reads_through_surviving_handles", "random_scenarios", "valgrind.scenarios", "miri.scenarios", "scenarios_with_lookups_before_drop", "scenarios_with_search_history_before_drop"]},
     "assumptions": ["the drop counters keep no addresses, so they cannot hide a leak from memcheck or Miri", "'usable' is read as: key(), value() and degree readable through the surviving handle (iterating edges whose peers the program itself dropped is outside the properties' live-node premise)"],
     "timeout": {"quick": 300, "thorough": 2400},
 }
@@ -137,11 +137,11 @@ PROPS["C20"] = {
 
 PROPS["C15"] = {
     "id": "C15", "cmd": "dropin", "level": "exploration",
-    "rule": "programs over the API common to both flavours (connect/try_connect/disconnect/isolate with 7 handle provenances, degree/predicate/lookup queries, the three edge iterators, every search/ordering configuration with for_each logs and reject-set filters, container insert/remove/get/index/len/to_vec/iter/roots/leaves/orphans, scc, JSON/CBOR text, DOT, edge and node comparison operators) are generated from the seed (50..300 calls, 2..6 nodes) and executed on digraph vs sync_digraph and ungraph vs sync_ungraph; transcripts (one line per call, keys and values only; hash-order dependent output canonicalised; scc compared only when it equals the model partition) must be equal. In addition every (abstract state, op) pair of the C03 enumeration for 3 nodes is run side by side with all iterators and queries afterwards. distinct = distinct programs.",
+    "rule": "programs over the API common to both flavours (connect/try_connect/disconnect/isolate with 7 handle provenances, degree/predicate/lookup queries, the three edge iterators, every search/ordering configuration with for_each logs and reject-set filters, container insert/remove/get/index/len/to_vec/iter/roots/leaves/orphans, scc, JSON/CBOR text, DOT, edge and node comparison operators) are generated from the seed (50..300 calls, 2..6 nodes) and executed on digraph vs sync_digraph and ungraph vs sync_ungraph; transcripts (one line per call, keys and values only; hash-order dependent output canonicalised; scc compared only when it equals the model partition) must be equal. In addition every (abstract state, op) pair of the C03 enumeration for 3 nodes is run side by side with all iterators and queries afterwards, and random programs that mutate the graph from inside edge loops and traversal closures (the C20 workload) are run on both flavours and compared in the sequence of yielded edges and the final adjacency. distinct = distinct programs.",
     "shards": {"quick": 16, "thorough": 16},
     "args": {"quick": ["--programs", "20000", "--max-edges", "2"], "thorough": ["--programs", "600000", "--max-edges", "3"]},
     "exhaustive": {"quick": False, "thorough": False},
-    "require": {"any": ["enumerations_completed", "programs", "calls.search", "calls.serde", "calls.scc", "calls.dot", "calls.compare", "calls.container", "enumerated_state_op_pairs"]},
+    "require": {"any": ["enumerations_completed", "programs", "calls.search", "calls.serde", "calls.scc", "calls.dot", "calls.compare", "calls.container", "enumerated_state_op_pairs", "mutating_loop_programs"]},
     "assumptions": ["sizeof() and APIs that exist in one flavour only (with_capacity, Index<&K>, to_dot_with_attr/sizeof of ungraph) are not part of the common API", "compile-time differences between the flavours (trait bounds) are outside what executions can show"],
     "timeout": {"quick": 300, "thorough": 3000},
 }
@@ -172,16 +172,16 @@ PROPS["C17"]["require"]["any"] += ["stress_iterations", "stress.injected_yields"
 import c14
 PROPS["C14"] = {
     "id": "C14", "cmd": "-", "level": "exploration", "run_fn": c14.run,
-    "rule": "generated programs: for each of the 4 macros x 4 signature forms a seeded generator writes a Rust program with 60 (quick) / 400 (thorough) well-formed invocations (keys u32/&str/char/String incl. the empty string, node values i32/&str/tuple/Option, edge values i64/&str/tuple/f64, pure value expressions, self-loops, repeated edges, forward references, empty edge lists, `=>` without a bracket list, single-node and larger graphs, and invocations naming an unlisted key); each program is compiled against the working tree and run, and every structure dump (members, values, per-node ordered edge lists with values) is compared with the denotation computed by the generator; unlisted keys must panic naming the key; the empty form and the *_node!/*_connect! helpers are compared with Node::new/connect. distinct = distinct invocation texts.",
+    "rule": "generated programs: for each of the 4 macros x 4 signature forms a seeded generator writes a Rust program with 60 (quick) / 400 (thorough) well-formed invocations (keys u32/&str/char/String incl. the empty string, node values i32/&str/tuple/Option, edge values i64/&str/tuple/f64, pure value expressions and side-effecting ones (a counter: each listed expression must be evaluated exactly once, in listing order), self-loops, repeated edges, forward references, empty edge lists, `=>` without a bracket list, single-node and larger graphs, and invocations naming an unlisted key); each program is compiled against the working tree and run, and every structure dump (members, values, per-node ordered edge lists with values) is compared with the denotation computed by the generator; unlisted keys must panic naming the key; the empty form and the *_node!/*_connect! helpers are compared with Node::new/connect. distinct = distinct invocation texts.",
     "exhaustive": {"quick": False, "thorough": False},
-    "require": {"any": ["invocations_compared", "panicking_invocations", "invocations_with_selfloop", "invocations_with_repeated_edge", "invocations_with_forward_reference", "invocations_without_brackets", "helper_programs"]},
+    "require": {"any": ["invocations_compared", "panicking_invocations", "invocations_with_selfloop", "invocations_with_repeated_edge", "invocations_with_forward_reference", "invocations_without_brackets", "helper_programs", "invocations_with_side_effecting_values"]},
     "assumptions": ["the dump goes through the public API (iter, iter_out/iter_in, key, value); C01/C02 decide whether those views are coherent", "the statement is about contents: the concrete graph type a macro builds is recorded in the evidence notes, not judged"],
 }
 
 import c16
 PROPS["C16"] = {
     "id": "C16", "cmd": "-", "level": "exploration", "run_fn": c16.run,
-    "rule": "witness programs = {sync_digraph, sync_ungraph} x {Node, Edge, Graph} x sharing mode {clone moved into thread::spawn, &T in thread::scope, Arc<T>} x payload position {K, N, E} x hostile payload {Cell-based (Send, !Sync), Rc-based (!Send, !Sync), Cell-based whose Clone writes (Send, !Sync; the library clones stored keys and edge values itself)}, plus the same with benign (Arc<AtomicU64>) payloads in all positions, plus plain digraph/ungraph witnesses with u64 payloads; both threads touch key, value and edge values. Each witness is submitted to the compiler with hooks off: rejected with E0277 naming Send/Sync = not constructible; accepted = run under Miri with many seeds, a data race / UB in an accepted hostile or plain witness is a violation, benign witnesses must build and run race-free. distinct = distinct witness programs.",
+    "rule": "witness programs = {sync_digraph, sync_ungraph} x {Node, Edge, Graph, Path (search result)} x sharing mode {clone moved into thread::spawn, &T in thread::scope, Arc<T>} x payload position {K, N, E} x hostile payload {Cell-based (Send, !Sync), Rc-based (!Send, !Sync), Cell-based whose Clone writes (Send, !Sync; the library clones stored keys and edge values itself)}, plus the same with benign (Arc<AtomicU64>) payloads in all positions, plus plain digraph/ungraph witnesses with u64 payloads; both threads touch key, value and edge values. Each witness is submitted to the compiler with hooks off: rejected with E0277 naming Send/Sync = not constructible; accepted = run under Miri with many seeds, a data race / UB in an accepted hostile or plain witness is a violation, benign witnesses must build and run race-free. distinct = distinct witness programs.",
     "exhaustive": {"quick": True, "thorough": True},
     "require": {"any": ["hostile_rejected_for_send_sync", "plain_rejected_for_send_sync", "positive_accepted", "positive_run_race_free", "miri_runs"]},
     "assumptions": ["the universally quantified statement over all K, N, E is a fact about the trait solver and is not decided by executions; only these concrete witnesses are", "a hostile witness that compiles but in which Miri observes no race is reported in the evidence notes, not as a violation"],
